@@ -954,6 +954,40 @@ pub fn run(session: &Session, prop: &'static RefProp, rule: &str) -> i32 {
                 }
             }
         }
+        // loops whose exit (or whose repetition) is decided by a constant, with a jump somewhere else in the
+        // body - inside a match arm, an if-set, an if, a block - and a loop of each kind around them: the
+        // jump belongs to the inner loop whether or not the folding pass can see that the loop runs once
+        let lit2 = |t: &str, hidden: bool| lit(t, hidden).replace("{bf}", &if hidden { "*(mut bool false)".to_string() } else { "false".to_string() });
+        let outers = [
+            ("while *o < 3 { o += 1; ", " n += 10; }"),
+            ("for q in [1, 2, 3]~ { o += 1; ", " n += 10; }"),
+            ("loop { o += 1; if *o > 3 { break; }; ", " n += 10; }"),
+            ("g := () { ", " n += 10; }; g(); g(); o += 2;"),
+        ];
+        let inners = [("loop { ", " }"), ("while {bt} { ", " }"), ("while !({bf}) { ", " }")];
+        let holders = [
+            "match *n % 3 { 0 => { JUMP; }, => { }, }",
+            "if z: int = *n { if z % 3 == 0 { JUMP; }; }",
+            "if *n % 3 == 0 { JUMP; }",
+            "{ if *n % 3 == 0 { JUMP; }; }",
+            "match *n % 3 { 0 => { if z: int = *n { JUMP; }; }, 1 => { }, => { }, }",
+        ];
+        let exits = ["if {bt} { break; }", "if !({bf}) { break; }", "match {i1} { {i1} => { break; }, => { }, }", "if {bf} { } else { break; }"];
+        for (oo, oc) in outers {
+            for (io, ic) in inners {
+                for holder in holders {
+                    for jump in ["continue", "break"] {
+                        for exit in exits {
+                            let program = |hidden: bool| {
+                                let body = format!("{io}n += 1; {}; {exit};{ic};", holder.replace("JUMP", jump));
+                                lit2(&format!("n := mut 0; o := mut 0; {oo}{body}{oc}; (*n, *o)"), hidden)
+                            };
+                            cases.push(json!({"plain": program(false), "hidden": program(true), "partly_hidden": program(true), "expected": "", "permitted": [], "labels": ["constant-exit loop catalogue"], "counters": {}, "literals": 2}));
+                        }
+                    }
+                }
+            }
+        }
         session.set_extra("twin_catalogue_cases", json!(cases.len()));
         session.run_enum(prop, cases);
     }
